@@ -11,12 +11,16 @@ import (
 
 func init() { runners["hist"] = runHist }
 
-// case: hist <T ns> <info|debug> <getmsg|stream> <hex,hex,...> [tz offset seconds]
+// case: hist <T ns> <info|debug> <getmsg|stream> <hex,hex,...> [tz offset seconds [live]]
 // obs:  <sent>,<sow>;...   one pair per frame   | panic | hang
 func runHist(f []string, out *bufio.Writer) {
 	T := time.Unix(0, atoi64(f[1])).UTC()
 	if len(f) >= 6 {
 		T = T.In(time.FixedZone("case", atoi(f[5])))
+	}
+	if len(f) >= 7 && f[6] == "live" {
+		// a live handler: created with the wall clock's "now" (the case's T is the same instant to within the run time)
+		T = time.Now().In(T.Location())
 	}
 	h := rtcm.New(T, level(f[2]))
 	var frames [][]byte
